@@ -89,7 +89,13 @@ def execute(case, mode):
         elif gname == 'makefractalCIJ':
             out = f(p['mx_lvl'], p['E'], p['sz_cl'], seed=rng)
         else:
-            out = f(np.array(p['inv']), np.array(p['outv']), seed=rng)
+            vt = p.get('vtype')
+            iv, ov = np.array(p['inv']), np.array(p['outv'])
+            if vt == 'column':
+                iv, ov = iv.reshape(-1, 1), ov.reshape(-1, 1)
+            elif vt:
+                iv, ov = iv.astype(vt), ov.astype(vt)
+            out = f(iv, ov, seed=rng)
         outcome = 'ok'
     except SimBudget:
         outcome = 'budget'
@@ -165,17 +171,17 @@ class _Scn(object):
             n = rnd.randint(4, min(nmax, 10))  # an infeasible (n, k, s) costs 10 001 n x n draws before the routine gives up
             p = {'n': n, 'k': rnd.randint(1, max(1, n * (n - 1) // 3)), 's': rnd.choice((0.5, 1.0, 2.0, 4.0))}
         elif g == 'makeevenCIJ':
-            lv = rnd.randint(2, 3 if nmax <= 8 else 4)
+            lv = rnd.randint(1, 3 if nmax <= 8 else 4)  # N = 2 is a power of two as well
             n = 2 ** lv
-            sz = rnd.randint(1, lv - 1)
+            sz = rnd.randint(1, max(1, lv - 1))
             csize = 2 ** sz
             kmin = (n // csize) * csize * (csize - 1)
             p = {'n': n, 'k': rnd.randint(kmin, n * (n - 1)), 'sz_cl': sz}
         elif g == 'makefractalCIJ':
-            lv = rnd.randint(2, 3 if nmax <= 8 else 4)
+            lv = rnd.randint(1, 3 if nmax <= 8 else 4)
             p = {'mx_lvl': lv, 'E': rnd.choice((1, 1.0, 1.5, 2, 3, 4)), 'sz_cl': rnd.randint(1, lv)}  # E = 1: no fall-off
         else:
-            n = rnd.randint(3, nmax)
+            n = rnd.randint(3, max(nmax, 14))
             dens = rnd.choice((0.15, 0.3, 0.5, 0.7))
             A = np.zeros((n, n), dtype=int)
             for a in range(n):
@@ -185,6 +191,11 @@ class _Scn(object):
             if A.sum() == 0:
                 A[0, 1] = 1
             p = {'inv': A.sum(0).tolist(), 'outv': A.sum(1).tolist()}
+            x = rnd.random()
+            if x < 0.3:
+                p['vtype'] = rnd.choice(('int8', 'uint8', 'int16', 'int32', 'uint16'))  # degree vectors in a narrow integer container
+            elif x < 0.36:
+                p['vtype'] = 'column'  # the docstring's "Nx1" taken literally
         budget = 30000 if g != 'maketoeplitzCIJ' else 11000
         return {'scn': self.ID, 'routine': g, 'params': p, 'seed': sub, 'policy': rewire.pick_policy(rnd), 'budget': budget, 'trace': None}
 
